@@ -115,8 +115,11 @@ func (p *TFramedTransport) Read(buf []byte) (l int, err error) {
 		if err == nil {
 			err = thrift.NewTTransportExceptionFromError(
 				fmt.Errorf("frugal: not enough frame (size %d) to read %d bytes", frameSize, len(buf)))
-			return
 		}
+		// Whatever the read of the rest of the frame returned, the request for
+		// more than the frame holds ends here: reading on would hand out bytes
+		// that belong to no frame and wrap frameSize around.
+		return
 	}
 	got, err := p.reader.Read(buf)
 	p.frameSize = p.frameSize - uint32(got)
